@@ -18,6 +18,7 @@ RULE = (
     '; pass 6: noise re-bound / re-initialised between two calls (property, noise-model attribute, initialize)'
     '; pass 7: stacked noise tensors and None entries for list members; the Dirichlet classification member (noise and targets derived from labels, alpha_epsilon in {0.01, 0.1, 1}, stored labels and call-time labels that may lack the largest class, float and double)'
     "; pass 9: call-time noise on the homoskedastic likelihood (used directly, down to 0); one likelihood object in two slots of a LikelihoodList"
+    "; pass 10: targets and latent means with a large common offset (1e5..1e7); integer / single-precision targets against a double-precision distribution"
 )
 REQUIRED = ["marginal_adds_R", "marginal_keeps_mean", "expected_log_prob", "log_marginal", "forward_scale", "list_memberwise", "monitor:marginal_calls", "dirichlet_noise"]
 ASSUMPTIONS = ["R is built from public parameter values only (noise, second_noise, task_noises, task_noise_covar)"]
